@@ -216,6 +216,24 @@ class C12(Prop):
                 if not (abs(oc[a] - b) < 1e-9 or (a == 'k' and angdiff(oc[a], b) < 1e-9)):
                     out.append(('output-convert', 'batched output conversion gives %s=%r, MT6_Tape gives %r' % (a, oc[a], b), None))
                     break
+            # the two reported nodal planes are each other's auxiliary plane: unit normals perpendicular, and the slip vector of one is
+            # the normal of the other (both describe the tensor's double-couple orientation)
+            if all(kk in oc for kk in ('S1', 'D1', 'R1', 'S2', 'D2', 'R2')) and not self._degenerate(impl):
+                rad = PI / 180
+
+                def nrm(sd, dp):
+                    return [-math.sin(sd) * math.sin(dp), math.cos(sd) * math.sin(dp), -math.cos(dp)]
+
+                def slip(sd, dp, rk):
+                    return [math.cos(rk) * math.cos(sd) + math.sin(rk) * math.cos(dp) * math.sin(sd),
+                            math.cos(rk) * math.sin(sd) - math.sin(rk) * math.cos(dp) * math.cos(sd), -math.sin(rk) * math.sin(dp)]
+                n1, n2 = nrm(oc['S1'] * rad, oc['D1'] * rad), nrm(oc['S2'] * rad, oc['D2'] * rad)
+                s1 = slip(oc['S1'] * rad, oc['D1'] * rad, oc['R1'] * rad)
+                dot = sum(a * b for a, b in zip(n1, n2))
+                par = abs(sum(a * b for a, b in zip(s1, n2)))
+                if abs(dot) > 1e-6 or abs(par - 1) > 1e-6:
+                    out.append(('output-planes', 'output conversion reports planes (%r, %r, %r) and (%r, %r, %r) that are not each other\'s auxiliary '
+                                'plane (n1.n2 = %r, |slip1.n2| = %r)' % (oc['S1'], oc['D1'], oc['R1'], oc['S2'], oc['D2'], oc['R2'], dot, par), None))
             six = impl['six']
             if not all(close(a, b, atol=1e-12) for a, b in zip(six, case['mt'])):
                 out.append(('six-33-six', 'six-vector -> 3x3 -> six-vector changed the tensor', None))
